@@ -143,10 +143,35 @@ func (t *memTable) fieldSort(name string) string {
 	_, st := t.rowStruct()
 	for i := 0; i < st.NumFields(); i++ {
 		if st.Field(i).Name() == name {
+			if _, agg := st.Field(i).Type().Underlying().(*types.Struct); agg {
+				return "Key" // struct-valued index field (time.Time): compared through an uninterpreted key image
+			}
 			return sortOf(st.Field(i).Type())
 		}
 	}
 	return "Str"
+}
+
+// the index image of a struct-valued field (go-memdb's TimeFieldIndex encodes UnixNano): an uninterpreted function of
+// the value's leaves. For time.Time the image of every IsZero value equals the image of time.Time{} (UnixNano depends
+// only on sec() and nsec(), which IsZero tests).
+func (e *Exec) idxKey(t types.Type, v Val) string {
+	terms, sorts := e.leaves(t, v)
+	f := "|$idxkey." + sanitize(t.String()) + "|"
+	e.decl(fmt.Sprintf("(declare-fun %s (%s) Int)", f, strings.Join(sorts, " ")))
+	if t.String() == "time.Time" {
+		z := "|ext." + sanitize("(time.Time).IsZero") + "|"
+		e.decl(fmt.Sprintf("(declare-fun %s (%s) Bool)", z, strings.Join(sorts, " ")))
+		e.timeZeroAxiom(t)
+		var bs, ns []string
+		for i, so := range sorts {
+			bs = append(bs, fmt.Sprintf("(k%d %s)", i, so))
+			ns = append(ns, fmt.Sprintf("k%d", i))
+		}
+		zt, _ := e.leaves(t, zero(t))
+		e.axiomOnce("idxkey.time.zero", fmt.Sprintf("(forall (%s) (! (=> %s (= %s %s)) :pattern (%s)))", strings.Join(bs, " "), app(z, ns...), app(f, ns...), app(f, zt...), app(f, ns...)))
+	}
+	return app(f, terms...)
 }
 
 func (t *memTable) keySorts() []string {
@@ -162,6 +187,12 @@ func (e *Exec) rowField(s *State, t *memTable, row, field string) string {
 	bt, st := t.rowStruct()
 	for i := 0; i < st.NumFields(); i++ {
 		if st.Field(i).Name() == field {
+			if _, agg := st.Field(i).Type().Underlying().(*types.Struct); agg {
+				e.quietLoads++
+				v := e.load(s, HeapAddr{Ref: row, Key: structFam(bt, field)}, st.Field(i).Type())
+				e.quietLoads--
+				return e.idxKey(st.Field(i).Type(), v)
+			}
 			return fmt.Sprintf("(%s %s)", e.cur(s, structFam(bt, field), []string{"Ref"}, sortOf(st.Field(i).Type())), row)
 		}
 	}
@@ -279,6 +310,10 @@ func (e *Exec) memArgsT(s *State, va Val, sorts []string, vtypes []types.Type, e
 		if bt == nil {
 			e.abort("memdb: index argument %d has no statically known type at %s", i, e.posStr(0))
 		}
+		if _, agg := bt.Underlying().(*types.Struct); agg && sorts[i] == "Key" {
+			out = append(out, e.idxKey(bt, e.unbox(s, bt, ref)))
+			continue
+		}
 		if sortOf(bt) != sorts[i] {
 			e.abort("memdb: index argument %d has sort %s, the index field has sort %s at %s", i, sortOf(bt), sorts[i], e.posStr(0))
 		}
@@ -299,8 +334,8 @@ func (e *Exec) memMatch(s *State, t *memTable, index string, row string, args []
 			break
 		}
 		so := t.fieldSort(fields[i])
-		if so != "Str" && so != "Int" && so != "Bool" {
-			continue
+		if so != "Str" && so != "Int" && so != "Bool" && so != "Key" {
+			e.abort("memdb: index field %s of sort %s is not modelled", fields[i], so)
 		}
 		cs = append(cs, fmt.Sprintf("(= %s %s)", e.rowField(s, t, row, fields[i]), a))
 	}
@@ -686,8 +721,10 @@ func (e *Exec) memIterCond(s *State, t *memTable, index, kind, row string, args 
 			}
 			continue
 		}
-		if so == "Str" || so == "Int" || so == "Bool" {
+		if so == "Str" || so == "Int" || so == "Bool" || so == "Key" {
 			cs = append(cs, fmt.Sprintf("(= %s %s)", f, a))
+		} else {
+			e.abort("memdb: index field %s of sort %s is not modelled", fields[i], so)
 		}
 	}
 	if len(cs) == 0 {
